@@ -320,6 +320,9 @@ def rule_M8_weak(m, rep, rid='M8w'):
 
 _VIEWS = ('core::str::as_bytes', 'alloc::string::String::as_str', 'alloc::string::String::as_bytes', 'alloc::vec::Vec::as_slice',
           '<alloc::string::String as core::ops::deref::Deref>::deref', '<alloc::vec::Vec as core::ops::deref::Deref>::deref')
+_COPIES = ('<alloc::string::String as core::convert::From>::from', '<str as alloc::string::ToString>::to_string', '<str as alloc::borrow::ToOwned>::to_owned',
+           'alloc::str::<impl str>::to_owned', 'alloc::string::String::from', '<alloc::string::String as core::clone::Clone>::clone',
+           'alloc::slice::<impl [T]>::to_vec', '<T as core::convert::Into>::into')
 _SHORTER = ('core::str::trim', 'core::str::trim_start', 'core::str::trim_end', 'core::str::trim_matches',
             'core::str::trim_start_matches', 'core::str::trim_end_matches')
 _LEN = ('core::str::len', 'core::slice::len', 'alloc::vec::Vec::len', 'alloc::string::String::len')
@@ -337,6 +340,9 @@ def _canon(t):
             break
     if t[0] == 'call' and isinstance(t[1], str) and t[1] in _LEN and len(t[2]) == 1:
         x = _canon(t[2][0])
+        # an owned copy of a string / slice has the length of the original
+        while x[0] == 'call' and isinstance(x[1], str) and len(x[2]) == 1 and (x[1] in _COPIES or x[1].endswith(('ToString>::to_string', 'ToOwned>::to_owned'))):
+            x = _canon(x[2][0])
         # collect(map(iter(v), f)): std - Map over a slice iterator yields exactly one item per element
         if x[0] == 'call' and isinstance(x[1], str) and x[1].endswith('Iterator>::collect') and len(x[2]) == 1:
             y = _canon(x[2][0])
@@ -422,11 +428,18 @@ def discharge(ctx, m, inv_ok, cr, b, bi, kind, term, T):
                     return True, 'D7: %s of a slice with a bound that is <= its length by construction (%s)' % (rng[1].rsplit('::', 1)[-1], fmt(bound)[:60])
         if k.endswith(('core::panicking::panic', 'core::panicking::panic_fmt', 'core::panicking::assert_failed')):
             # an assertion: the panic is behind `if !(cond)`; discharged when cond is a fact of std's own algebra
-            for dt, labels, _sbi in (guards_of(T, bi) or []):
+            gs_ = guards_of(T, bi) or []
+            for dt, labels, _sbi in gs_:
                 d = norm(dt)
                 for lab in labels:
                     if lab[0] == 'bool' and always(d) is (not lab[1]):
                         return True, 'D7: assertion of a fact that always holds (%s): the panic is unreachable' % fmt(d)[:100]
+                    # a TrySendError is Full or Disconnected: `is_disconnected()` asserted where `is_full()` was just found false
+                    if lab[0] == 'bool' and lab[1] is False and term_callee_is(d, 'crossbeam_channel::err::TrySendError::is_disconnected'):
+                        for dt2, labels2, _s2 in gs_:
+                            d2 = norm(dt2)
+                            if term_callee_is(d2, 'crossbeam_channel::err::TrySendError::is_full') and _canon(d2[2][0]) == _canon(d[2][0]) and ('bool', False) in labels2:
+                                return True, 'D7: a TrySendError that is not Full is Disconnected: the assertion cannot fail'
         return None, ''
     # asserts
     msg = kind[7:]
